@@ -476,7 +476,7 @@ def classify(info):
     if T == u64 or u64 in info["child_types"] or info.get("decl") == "ul" or info.get("sym_type") == u64 or u64 in info.get("def_types", ()) or u64 in info.get("def_child_types", ()):
         # values >= 2^63 do not fit cppcheck's signed 64-bit value type
         return "unsigned-long-long-evaluated-as-signed-64-bit"
-    if k == "eq" and node == "v" and T == [4, 1] and info.get("decl") == "si" and info.get("def_sources_reassigned"):
+    if k in ("eq", "ne", "gt", "lt") and node == "v" and T == [4, 1] and info.get("decl") == "si" and info.get("def_sources_reassigned"):
         return "symbolic-relation-survives-reassignment-of-its-source"
     if k in ("gt", "lt") and node == "v" and info.get("in_then_of_or_ternary"):
         return "ternary-then-branch-of-or-condition-assumes-both-operands"
